@@ -413,6 +413,14 @@ class LInt(SInt):
         return r
 
     def __eq__(self, o):
+        memo = type(o) is int
+        if memo:
+            m = self.__dict__.get("_eqmemo")
+            if m is None:
+                m = self.__dict__["_eqmemo"] = {}
+            r = m.get(o)
+            if r is not None:
+                return r
         t = self._eq_term(o)
         if t is None:
             return self._generic() == o
@@ -420,9 +428,19 @@ class LInt(SInt):
         if len(self.bits) <= 1 and isinstance(o, int) and o in (0, 1):
             low = self.bits[0] if self.bits else ZERO
             r.lin_bit = low if o == 1 else bxor(low, (1, frozenset()))
+        if memo:
+            m[o] = r
         return r
 
     def __ne__(self, o):
+        memo = type(o) is int
+        if memo:
+            m = self.__dict__.get("_nememo")
+            if m is None:
+                m = self.__dict__["_nememo"] = {}
+            r = m.get(o)
+            if r is not None:
+                return r
         t = self._eq_term(o)
         if t is None:
             return self._generic() != o
@@ -430,6 +448,8 @@ class LInt(SInt):
         if len(self.bits) <= 1 and isinstance(o, int) and o in (0, 1):
             low = self.bits[0] if self.bits else ZERO
             r.lin_bit = low if o == 0 else bxor(low, (1, frozenset()))
+        if memo:
+            m[o] = r
         return r
 
     __hash__ = SInt.__hash__
